@@ -579,7 +579,13 @@ func TestVerif_C34_PickFirst(t *testing.T) {
 	var connects, picks int64
 	distinct := map[string]bool{}
 	var cmu sync.Mutex
-	for _, sc := range scenarios {
+	for si, sc := range scenarios {
+		// one scenario per worker process: synctest bubbles must not run
+		// concurrently inside one process (go1.25.0 runtime race), so the leg is
+		// parallelised by shards, not by goroutines
+		if !r.Mine(si) {
+			continue
+		}
 		pre, err := c34OpIndex(sc, sc.pre)
 		if err != nil {
 			r.EngineError("%v", err)
@@ -590,7 +596,7 @@ func TestVerif_C34_PickFirst(t *testing.T) {
 			names[i] = sc.ops[i].name
 		}
 		seqx.BFS(r, []string{P}, seqx.Config{
-			Name: sc.name, Ops: names, MaxDepth: r.Pick(sc.depthQ, sc.depthT), Parallel: 16,
+			Name: sc.name, Ops: names, MaxDepth: r.Pick(sc.depthQ, sc.depthT), Parallel: 1,
 			Congruence: r.Thorough(), CongruenceMax: 300,
 			Run: func(hist []int) seqx.Outcome {
 				res := c34Bubble(t, sc, pre, hist)
@@ -659,7 +665,7 @@ func TestVerif_C34_PickFirst(t *testing.T) {
 	r.AddInt(P, "effective_connect_requests_judged", connects)
 	r.AddInt(P, "picks_returning_a_subchannel_judged", picks)
 	// one written-out case with the calls the balancer made
-	if sc := scenarios[1]; true {
+	if sc := scenarios[1]; r.Mine(0) {
 		if hist, err := c34OpIndex(sc, []string{"update[v4a,v4b,v6a]", "v4a.connecting", "advance250ms", "v6a.connecting", "v6a.tf", "v4b.connecting", "v4b.ready"}); err == nil {
 			res := c34Bubble(t, sc, nil, hist)
 			r.Sample(P, map[string]any{"scenario": sc.name, "trace": res.trace})
